@@ -61,6 +61,9 @@ def run_property(pid, tier, seed):
     ctx = Ctx(tier)
     chk = report.Check(pid, tier, seed)
     mod.run(ctx, chk)
+    if tier == "thorough" and not os.environ.get("VERIF_SELFTEST"):
+        import corpus
+        corpus.run_for(chk, pid)
     return chk.finish()
 
 
